@@ -27,6 +27,7 @@
 //   ">f@t;"    the scheduler resumes fiber f, virtual time t (after the tick)
 //   "f:^;"     f yields at the injection point in front of its next wrapped operation
 //   "f:?i/n;"  a notify_one inside f's current operation removes element i of a queue of n parked fibers
+//   "f:$c;"    SharedMutex::unlock inside f's current operation drew c from GetRandNumber(2)
 //   "f:!c <op> [arg];"  f is about to call <op>          "f:!r <op> <result> <now>;"   <op> returned
 #include <cstddef>
 #include <cstdint>
@@ -65,6 +66,13 @@ std::int64_t (*gOldChoose)(int, std::uint64_t) = nullptr;
 void (*gOldResume)(std::uint64_t) = nullptr;
 
 std::int64_t MyChoose(int kind, std::uint64_t n) {
+  if (kind == yaclib::verif::kRand && n == 2 && vrt::g.active) {
+    // the only two-way draw in the fiber lock sources is SharedMutex::unlock's coin (shared_mutex.cpp:23): it is a
+    // decision of the explorer like every other one (the runtime alone would always answer 0)
+    const int c = vrt::Next(2);
+    vrt::g.trace += vrt::FiberName(vrt::g.cur) + ":$" + std::to_string(c) + ";";
+    return c;
+  }
   auto r = gOldChoose(kind, n);
   if (vrt::g.active) {
     if (kind == yaclib::verif::kYield && r == 1) {
